@@ -280,6 +280,9 @@ class ProgGen(object):
         # (a global alias outlives the group: only of macros whose body calls nothing that is local to it)
         glob = depth > 0 and r.random() < 0.3 and (src.plain is not None or (getattr(src, 'glob', False) and src.kind == 'def' and src.plain is not None))
         sig = Sig(name, src.kind, self.rank, 0 if glob else depth, items=src.items, nargs=src.nargs, opt=src.opt, glob=glob, plain=src.plain)
+        if src.kind == 'def' and src.defines is None:
+            # (an alias of a \def macro can later be given a definition of its own with the same parameter text: \let, then \def)
+            sig.ptext = getattr(src, 'ptext', None)
         self.register(sig, glob)
         self.features.add('global-let' if glob else 'let')
         return ('\\global' if glob else '') + '\\let\\%s%s\\%s' % (name, r.choice(['=', '', ' = ', '= ']), src.name) + ' '
